@@ -21,10 +21,36 @@ import (
 
 // declaredParent: the struct type of the embedded FIRST field (the parent in every reading of the reflector), nil when none
 func declaredParent(t *gty) *gty {
-	if t != nil && t.kind == "struct" && len(t.fields) > 0 && t.fields[0].anon && t.fields[0].t.kind == "struct" {
-		return t.fields[0].t
+	if t != nil && t.kind == "struct" && len(t.fields) > 0 && t.fields[0].anon {
+		if ft := t.fields[0].t; ft.kind == "struct" {
+			return ft
+		} else if ft.kind == "ptr" && ft.elem.kind == "struct" {
+			// an embedded POINTER to a struct: appendAttributeValues dereferences it, ToReflectedValue allocates it
+			return ft.elem
+		}
 	}
 	return nil
+}
+
+// declaredFieldVals: the fields of a struct value that a type declared with parents (@objregp) has attributes for — those of
+// the embedded first field (a struct, or a non-nil pointer to one) first, then the own
+func declaredFieldVals(t *gty, v reflect.Value) []fieldVal {
+	out := []fieldVal{}
+	for i, f := range t.fields {
+		if i == 0 && declaredParent(t) != nil {
+			pv := v.Field(0)
+			if pv.Kind() == reflect.Ptr {
+				if pv.IsNil() {
+					continue
+				}
+				pv = pv.Elem()
+			}
+			out = append(out, declaredFieldVals(declaredParent(t), pv)...)
+			continue
+		}
+		out = append(out, fieldVal{f, v.Field(i)})
+	}
+	return out
 }
 
 // hasDeclaredParent: some struct type inside t has an embedded first field that is a struct
@@ -435,6 +461,32 @@ func genIfaceStructs(g *core.G) {
 			g.Emit("@refl iface " + d)
 			g.Emit("@refl (slice iface) (s " + d + " nil)")
 			g.Emit("@refl (map string iface) (m (x6b " + d + "))")
+		}
+	}
+}
+
+// genDeclaredParents: the registry-mapped path (@objreg / @objregp) on structs whose embedded first field is a POINTER to a
+// struct — non-nil (declared as the parent: dereferenced on the way in, allocated on the way back), nil (n/a as a parent, an
+// absent attribute otherwise) — for every scalar type and boundary value; a pointer parent that has a struct parent itself;
+// such structs inside a slice
+func genDeclaredParents(g *core.G) {
+	for _, e := range leafTypes() {
+		P := &gty{kind: "struct", fields: []gfield{{name: "PA", t: e}}}
+		R := &gty{kind: "struct", fields: []gfield{{name: "RA", t: &gty{kind: "bool"}}}}
+		P2 := &gty{kind: "struct", fields: []gfield{{name: "Root", anon: true, t: R}, {name: "PA", t: e}}}
+		child := func(p *gty) *gty {
+			return &gty{kind: "struct", fields: []gfield{{name: "Base", anon: true, t: &gty{kind: "ptr", elem: p}}, {name: "A", t: e}}}
+		}
+		both := func(t *gty, v string) {
+			g.Emit("@objreg " + t.sexp().String() + " " + v)
+			g.Emit("@objregp " + t.sexp().String() + " " + v)
+		}
+		zero := genVal(g.Rng, e, 0, 0)
+		both(child(P), "(st nil "+zero+")")
+		for _, v := range boundary(e) {
+			both(child(P), "(st (p (st "+v+")) "+zero+")")
+			both(child(P2), "(st (p (st (st t) "+v+")) "+v+")")
+			both(&gty{kind: "slice", elem: child(P)}, "(s (st (p (st "+v+")) "+v+") (st (p (st "+zero+")) "+v+"))")
 		}
 	}
 }
